@@ -230,7 +230,7 @@ PROPS["C14"] = dict(
              "law.compound_assignment_plus", "law.build_then_knock_restores", "error_symmetric_pairs",
              "pairs_without_order"],
     assumptions=TRUST_BASE,
-    stages=dict(quick=[native("dbg")], thorough=[native("dbg"), native("rel")]),
+    stages=dict(quick=[native("dbg", scale=10)], thorough=[native("dbg"), native("rel")]),
 )
 
 PROPS["C03"] = dict(
